@@ -149,6 +149,22 @@ round6 = {
 for k, v in round6.items():
     claimed[k]["text"] += v
 
+# parts added after the seventh round of seeded changes (DESIGN.md §11.8)
+round7 = {
+ "C01": " Stale-handle part: CreateDataStore issued for collections that already exist must leave their documents alone. Counters around 2^63.",
+ "C04": " WriteResurrectionWithXattrs and writes that store what is already stored take part in the bucket-clock runs (the second write must get a larger CAS).",
+ "C05": " View indexes exist and are refreshed during the histories (they must not stand in the way of PurgeTombstones); the live event of a write over a tombstone must carry none of its xattrs.",
+ "C07": " Macro paths with three and four components (only the addressed property may change).",
+ "C08": " Stale-handle part: a live feed on a collection that was dropped and re-created must survive another handle's lookup of that collection by name.",
+ "C11": " Failed-view-query part: a view query that fails part-way on a sibling collection must not keep the other collections from answering (10 s per probe). The sibling's index is also created with a filter that has a top-level OR.",
+ "C12": " stale given as the string false and as the bool false are judged like an absent stale.",
+ "C15": " A third of the checkpoint scenarios use a KeysOnly feed.",
+ "C19": " LIKE is judged case-insensitively over ids in both cases; numeric arguments are handed over as several Go integer types.",
+ "C20": " Shutdown kind close+delete: the last open handle is closed while the bucket is deleted through a handle that was closed before.",
+}
+for k, v in round7.items():
+    claimed[k]["text"] += v
+
 pending_reason = "check under construction in this session (design in DESIGN.md); it is claimed once its monitors are built and silent on the unchanged tree"
 m = {
  "version": 1,
